@@ -287,6 +287,25 @@ def _stb_result(I, env):
     return PackedBytes(">B" + code, [I.fresh_int("shiftbyte"), I.fresh_int("be")])
 
 
+TIMES_FALLBACK = """
+# bounded stand-in (class B): 4000 datetimes incl. microsecond-resolution ones and the domain extremes
+import sys, random
+from datetime import datetime, timedelta
+from whoosh.util.times import datetime_to_long, long_to_datetime
+rnd = random.Random(13)
+cands = [datetime.min, datetime.max, datetime(1970, 1, 1), datetime(2024, 2, 29, 13, 37, 21, 123457)]
+for _ in range(4000):
+    cands.append(datetime.min + timedelta(microseconds=rnd.randrange(0, (datetime.max - datetime.min) // timedelta(microseconds=1))))
+prev = None
+for dt in sorted(cands):
+    x = datetime_to_long(dt)
+    exp = (dt - datetime.min) // timedelta(microseconds=1)
+    if x != exp or long_to_datetime(x) != dt:
+        print("datetime_to_long(%r) = %r, expected %r; decoded %r" % (dt, x, exp, long_to_datetime(x))); sys.exit(1)
+sys.exit(0)
+"""
+
+
 def register2(R, tier):
     from pyvc.builtins import Rec, PackedBytes
     from pyvc.values import PyList
@@ -356,6 +375,7 @@ def register2(R, tier):
                ensures=["result == td.days * 86400000000 + td.seconds * 1000000 + td.microseconds"],
                returns="int",
                canaries=[Canary("seconds-factor", "td.seconds * 1000000", "td.seconds * 100000")],
+               native_fallback=TIMES_FALLBACK,
                assumptions=["datetime.timedelta keeps 0 <= seconds < 86400 and 0 <= microseconds < 10**6 (class A)"])
     R.contract("whoosh.util.times:long_to_datetime", props=["C13"],
                setup=lambda I: {"x": z3.Int("x")},
